@@ -105,6 +105,15 @@ def gen_case(r, gdesc):
         used_pos.add(m[0] + 1)
         recs.append((m[0] + 1, m[1][0], [m[1][2], other], {s: ("1/2" if s == samples[idx] else "0/0") for s in samples}))
         expect.append({"m": [m[0], m[1]], "kind": "snp", "style": "multiallelic", "copies": 1})
+    # a catalogued SNP X>Y written against a reference that already carries Y (REF = Y, ALT = X): every REF allele of
+    # the genotype is a copy of the variant, every ALT allele a copy of aldy's reference
+    snps = [m for m in muts if ">" in m[1] and len(m[1]) == 3 and (m[0] + 1) not in used_pos and gene[m[0]] == m[1][0]]
+    if snps and r.random() < 0.4:
+        m = r.choice(snps)
+        gt = r.choice(["0/0", "0/0", "0|0", "0/1", "1/1", "1|0"])
+        used_pos.add(m[0] + 1)
+        recs.append((m[0] + 1, m[1][2], [m[1][0]], {s: (gt if s == samples[idx] else r.choice(["0/0", "0/1", "1/1"])) for s in samples}))
+        expect.append({"m": [m[0], m[1]], "kind": "snp", "style": "swapped_reference", "copies": gt.count("0")})
     # unrelated and odd records
     lo, hi = min(gene.chr_to_ref), max(gene.chr_to_ref)
     for _ in range(r.randint(0, 4)):
